@@ -207,9 +207,10 @@ impl Check for C11Check {
                 slot: *r.pick(&[3usize, 4, 5, 6, 7, 9, 13, 14, 15, 16, 0, 2, 18, 100, 29, 30, 31, 29, 30, 31, 32, 33, 34, 34, 35, 36, 36, 13, 37]),
             },
             6 => Kind::Extreme { wires: *r.pick(&[2usize, 9, 40]), wire_mode: r.below(8) as u8, wire_len: *r.pick(&[101usize, 130, 300]), pad_msgs: r.usize(0, 3), pad_mode: r.below(8) as u8, pad_req: *r.pick(&[101u16, 120, 300]), pad_channels: *r.pick(&[3usize, 20, 79]), seam: r.chance(1, 2) },
+            7 if i % 16 == 15 => Kind::FwdDup { tracks: r.usize(2, 4) },
             _ => Kind::Fwd { tracks: 2, noise: 0.0, amp_scale: *r.pick(&[0.2, 3.0]) },
         };
-        let heavy = matches!(event, Kind::Fwd { .. } | Kind::Hits { .. } | Kind::RealHits { .. } | Kind::FullTpc { .. });
+        let heavy = matches!(event, Kind::Fwd { .. } | Kind::FwdDup { .. } | Kind::Hits { .. } | Kind::RealHits { .. } | Kind::FullTpc { .. });
         let k: Vec<u64> = (0..4).map(|_| r.next_u64()).collect();
         let mut trials = vec![
             Trial { perm: Perm::Identity, hash_key: k[0], twice: true, after_other: false, clock: None },
